@@ -381,8 +381,6 @@ def instances(tier):
     for kind in ('intersect', 'skew', 'parallel'):
         for r in rays3[: (2 if quick and kind != 'intersect' else 4)]:
             out.append(inst('ray3d %s p%s d%s' % (kind, r[0], r[1]), h_ray3d, timeout=1800, kind=kind, ray1=r))
-    if not quick:
-        out.append(inst('ray3d intersect both symbolic', h_ray3d, timeout=3600, kind='intersect'))
     out.append(inst('is_left', h_is_left))
     out.append(inst('wn_poly symbolic triangle', h_wn_triangle, timeout=1800))
     for i, poly in enumerate(_simple_polygons(quick)):
